@@ -88,7 +88,7 @@ def schedule_cases(rng, tier):
             for v in allv:
                 cases.append(('sizes=%s' % (sizes,), v, {gid: t for gid, t, _ in groups}))
     # random: more and larger groups
-    for _ in range(200 if tier == 'quick' else 5000):
+    for _ in range(200 if tier == 'quick' else 40000):
         ng = rng.randint(1, 5)
         seqs, tots = [], {}
         bodies = Bodies(rng, plain=rng.random() < 0.3)
